@@ -24,6 +24,22 @@ def script(rng, mode, ivs, nops):
             ops.append(['ins', s, e, nid]); nid += 1; cur.append((s, e))
         elif r < 0.22:
             ops.append(['merge'])
+        elif r < 0.30 and cur:
+            # merge, then insert an interval that SHARES AN ENDPOINT with a stored one without overlapping it (possible
+            # only when one of the two is zero-length: [a,p) next to [p,p), [p,p) next to [a,p), [p,p) twice, [p,b) next
+            # to [p,p)), then query with start resp. stop exactly at the shared coordinate, no merge in between
+            s0, e0 = rng.choice(cur)
+            p0 = rng.choice([s0, e0])
+            lo = max(0, p0 - rng.randint(1, 4)); hi = min(G.width(mode), p0 + rng.randint(1, 4))
+            new_iv = rng.choice([(p0, p0), (lo, p0), (p0, hi), (p0, p0)])
+            if rng.random() < 0.7:
+                ops.append(['merge'])
+            ops.append(['ins', new_iv[0], new_iv[1], nid]); nid += 1; cur.append(new_iv)
+            if rng.random() < 0.3:
+                ops.append(['ins', p0, p0, nid]); nid += 1; cur.append((p0, p0))
+            for (a, b) in [(p0, hi), (lo, p0), (p0, min(G.width(mode), p0 + 1))]:
+                if a < b <= G.width(mode):
+                    ops.append(['count', a, b]); ops.append(['find', a, b]); touched = True
         elif r < 0.25:
             ops.append(['isempty']); ops.append(['len'])
         elif r < 0.28:
